@@ -78,25 +78,43 @@ Definition run (i : sx) : sx :=
   | L [A 10; _; _; _; _; _; _; _; L sends] =>
       (* asyncio adapter, several sends one after the other (IO/AsyncAdapter.v over Conc/FlowControl.v):
          send = L [A 0; L [B data]; A k] send_all | L [A 1; L chunks; A k] send_all_from_iterable; the kernel takes k bytes
-         at once; afterwards the buffer is flushed.  output: what was handed to the transport = what the peer reads *)
+         at once; k = -1: the kernel refuses the write (ECONNRESET): asyncio swallows the error, drops the data, marks the
+         transport closing and schedules connection_lost(exc) for the next loop iteration (labels AKill, then the send,
+         ALost, AWake); afterwards the buffer is flushed.
+         output: outcome of the last send (0 / connection error), what the peer reads, wire = handed *)
       do sends <- map_opt (fun x => match x with
                                     | L [A kind; chunks; A k] =>
                                         match as_list_of as_chunk chunks with
-                                        | Some cs => Some (kind, cs, Z.to_nat k)
+                                        | Some cs => Some (kind, cs, k)
                                         | None => None
                                         end
                                     | _ => None
                                     end) sends;
-      let labels := map (fun '(i, (kind, cs, k)) => if kind =? 0 then CSend i (concat cs) k else CSendIter i cs k)
-                        (combine (seq 0 (length sends)) sends) in
-      match cad_run (cad_init (mkCfg 0 0 true) (length sends)) labels with
-      | Some c =>
+      let label_of i kind cs k := if kind =? 0 then CSend i (concat cs) k else CSendIter i cs k in
+      let labels := flat_map (fun '(i, (kind, cs, k)) =>
+                                if k <? 0 then [COther AKill; label_of i kind cs 0%nat; COther (ALost true); COther (AWake i)]
+                                else [label_of i kind cs (Z.to_nat k)])
+                             (combine (seq 0 (length sends)) sends) in
+      (* run, remembering the result of every drain() that completes *)
+      let fix go (c : cad) (ls : list clabel) (res : list dres) : option (cad * list dres) :=
+        match ls with
+        | [] => Some (c, res)
+        | l :: r =>
+            match ad_step (k_ad c) (count_label l), cad_step c l with
+            | Some (_, obs), Some c' =>
+                go c' r (res ++ flat_map (fun o => match o with ODrain _ d => [d] | _ => [] end) obs)
+            | _, _ => None
+            end
+        end in
+      match go (cad_init (mkCfg 0 0 true) (length sends)) labels [] with
+      | Some (c, res) =>
           let c' := match k_buf c with
                     | [] => Some c
                     | b => cad_step c (COther (AReady (length b)))
                     end in
+          let failed := existsb (fun d => match d with FlowControl.ROk => false | _ => true end) res in
           match c' with
-          | Some c2 => L [A 0; B (k_wire c2); of_bool (bytes_eqb (k_wire c2) (k_handed c2)); A 0]
+          | Some c2 => L [A (if failed then 2 else 0); B (k_wire c2); of_bool (bytes_eqb (k_wire c2) (k_handed c2)); A 0]
           | None => bad_input
           end
       | None => bad_input
